@@ -1,7 +1,9 @@
 (* C07 -- Range/Items visit each qualifying entry once, never a phantom or expired one.
    Cache level, sequential.  Map level: props/C11.v; interleaved: props/C07c.v. *)
 From CacheV Require Import Base SpecMap Client CacheModel CacheOfModel Ops SpecTTL.
-From CacheV.proofs Require Import C01_sim C01_ops C07_range.
+From CacheV Require Import TableModel.
+From CacheV.proofs Require Import C01_sim C01_ops C07_range C11_lists C11_table.
+From Coq Require Import NArith.
 
 (* Whatever order the map hands out its pairs in (the hint), a traversal of the
    cache visits no key twice, only pairs that are current and unexpired at the
@@ -33,3 +35,20 @@ Theorem C07_visits_are_events :
     (m, CList (vis ++ visits now f l), map (fun '(k, v) => EVisit k v) (visits now f l)).
 Proof. exact @run_range_loop. Qed.
 Print Assumptions C07_visits_are_events.
+
+(* Map / MapOf, sequentially (no concurrent writer): what Range hands out is each
+   pair of the abstract map exactly once -- no key twice, no phantom, nothing
+   missing -- for every hash, seed, bucket size and resize history. *)
+Theorem C07_map_range_exact :
+  forall (K V A : Type) (eqd : forall a b : K, {a = b} + {a <> b})
+         (hash : K -> N -> N) (idx : N -> nat -> nat) (tag : N -> N) (nslots : nat) (seeds : nat -> N)
+         (variant : bool) (grow_needed shrink_policy : nat -> nat -> bool) fuel (m : @tmap K V) (a : amap K V),
+    WFm hash idx tag nslots m -> meq eqd (abs nslots m) a ->
+    exists l, @table_step K V A eqd hash idx tag nslots seeds variant grow_needed shrink_policy fuel m MSnapshot
+                = Some (m, RSnap l)
+              /\ NoDup (keys l) /\ Permutation l a.
+Proof.
+  intros K V A eqd hash idx tag nslots seeds variant g s fuel m a Hm Hq.
+  exists (abs nslots m). split; [reflexivity|]. split; [apply Hq | apply (meq_perm eqd); exact Hq].
+Qed.
+Print Assumptions C07_map_range_exact.
